@@ -12,7 +12,7 @@ EXPLANATION = ("static analysis (MIR abstract interpretation): a claim records `
                "on that epoch (a weight taking effect later must not be moved back); budget guards compare the *updated* claimed amount")
 ASSUMPTIONS = ["per-epoch sums over users and cumulative bounds are numeric / history facts and are not decided",
                "epoch manager answers are trusted inputs"]
-TECHNIQUE = "static analysis: guard cut-sets, key provenance of weight snapshots, required-dependence proof, guard operand provenance"
+TECHNIQUE = "static analysis: guard cut-sets, key provenance of weight snapshots, required-dependence proof, guard operand provenance, snapshot-selection key provenance, twin weight updates shared with C10"
 LEVEL_TEXT = ("Structural obligations over all paths of Claim and of every LP_WEIGHT_HISTORY writer; the required-dependence rule is a sound "
               "proof of a defect when it fires (x not in dep(v) over-approximated).")
 LEVEL_NOTE = "Not decided: sums over users per epoch, cumulative bounds, numeric weights."
